@@ -264,7 +264,31 @@ _wl = {}
 _adj = {}
 
 
-def _is_write_stmt(n):
+def _root(t):
+    import ast
+    while isinstance(t, (ast.Attribute, ast.Subscript, ast.Starred)):
+        t = t.value
+    return t.id if isinstance(t, ast.Name) else None
+
+
+def _locals_of(fn):
+    """names bound inside the function other than its parameters (objects the function made itself: not shared)"""
+    import ast
+    params = {a.arg for a in fn.args.args + fn.args.kwonlyargs + fn.args.posonlyargs}
+    if fn.args.vararg:
+        params.add(fn.args.vararg.arg)
+    if fn.args.kwarg:
+        params.add(fn.args.kwarg.arg)
+    bound = set()
+    for n in ast.walk(fn):
+        if isinstance(n, ast.Name) and isinstance(n.ctx, ast.Store):
+            bound.add(n.id)
+    return bound - params
+
+
+def _is_write_stmt(n, local):
+    """does the statement write through an attribute / subscript of, or call a mutating method on, an object that the
+    function did not create itself (self, cls, a parameter, a global)?"""
     import ast
     targets = []
     if isinstance(n, ast.Assign):
@@ -274,84 +298,65 @@ def _is_write_stmt(n):
     elif isinstance(n, ast.Delete):
         targets = n.targets
     elif isinstance(n, (ast.Expr, ast.Return)) and isinstance(n.value, ast.Call) and isinstance(n.value.func, ast.Attribute):
-        return n.value.func.attr in MUTATORS
+        r = _root(n.value.func.value)
+        return n.value.func.attr in MUTATORS and r is not None and r not in local
     elif isinstance(n, (ast.For, ast.While, ast.If, ast.With, ast.Try)):
-        # a compound statement that starts with / consists of writes continues a multi-step update
         body = getattr(n, 'body', [])
-        return bool(body) and _is_write_stmt(body[0])
-    return any(isinstance(x, (ast.Attribute, ast.Subscript)) for t in targets for x in ast.walk(t))
+        return bool(body) and _is_write_stmt(body[0], local)
+    for t in targets:
+        for x in ([t] if not isinstance(t, (ast.Tuple, ast.List)) else t.elts):
+            if isinstance(x, (ast.Attribute, ast.Subscript)):
+                r = _root(x)
+                if r is not None and r not in local:
+                    return True
+    return False
 
 
-def half_done_lines(files):
-    """(basename, line) of the writing statements that are directly followed, in the same block, by another writing
-    statement: suspending a thread right after such a line leaves a multi-field update half done."""
+def _scan(files):
     import ast
     import os
     import katdal
     root = os.path.dirname(os.path.dirname(katdal.__file__))
-    out = set()
-    for rel in files:
-        if rel not in _adj:
-            mine = set()
-            tree = ast.parse(open(os.path.join(root, rel)).read())
-            for fn in ast.walk(tree):
-                if not isinstance(fn, (ast.FunctionDef, ast.AsyncFunctionDef)) or fn.name == '__init__':
-                    continue
-                for n in ast.walk(fn):
-                    for field in ('body', 'orelse', 'finalbody'):
-                        block = getattr(n, field, None)
-                        if not isinstance(block, list):
-                            continue
-                        for a, b in zip(block, block[1:]):
-                            if isinstance(a, ast.stmt) and _is_write_stmt(a) and not isinstance(a, (ast.For, ast.While, ast.If, ast.With, ast.Try)) \
-                                    and _is_write_stmt(b):
-                                mine.add((os.path.basename(rel), a.lineno))
-                        # a loop whose body writes: every iteration is a step of a multi-step update
-                        if isinstance(n, (ast.For, ast.While)) and field == 'body' and block and _is_write_stmt(block[-1]):
-                            mine.add((os.path.basename(rel), block[-1].lineno))
-            _adj[rel] = mine
-        out |= _adj[rel]
-    return out
-
-
-def write_lines(files):
-    """(basename, line) of every statement outside __init__ that writes through an attribute or a subscript, deletes
-    one, or calls a mutating container method: the places next to which a pre-emption can expose a half-done update
-    or a stale check."""
-    import ast
-    import os
-    import katdal
-    root = os.path.dirname(os.path.dirname(katdal.__file__))
-    out = set()
     for rel in files:
         if rel in _wl:
-            out |= _wl[rel]
             continue
-        mine = set()
+        writes, half = set(), set()
+        base = os.path.basename(rel)
         tree = ast.parse(open(os.path.join(root, rel)).read())
         for fn in ast.walk(tree):
             if not isinstance(fn, (ast.FunctionDef, ast.AsyncFunctionDef)) or fn.name == '__init__':
                 continue
+            local = _locals_of(fn)
             for n in ast.walk(fn):
-                targets = []
-                if isinstance(n, ast.Assign):
-                    targets = n.targets
-                elif isinstance(n, (ast.AugAssign, ast.AnnAssign)):
-                    targets = [n.target]
-                elif isinstance(n, ast.Delete):
-                    targets = n.targets
-                elif (isinstance(n, ast.Expr) and isinstance(n.value, ast.Call) and isinstance(n.value.func, ast.Attribute)
-                      and n.value.func.attr in MUTATORS):
-                    mine.add((os.path.basename(rel), n.lineno))
-                elif (isinstance(n, ast.Return) and isinstance(n.value, ast.Call) and isinstance(n.value.func, ast.Attribute)
-                      and n.value.func.attr in MUTATORS):
-                    mine.add((os.path.basename(rel), n.lineno))
-                for t in targets:
-                    if any(isinstance(x, (ast.Attribute, ast.Subscript)) for x in ast.walk(t)):
-                        mine.add((os.path.basename(rel), n.lineno))
-        _wl[rel] = mine
-        out |= mine
-    return out
+                if isinstance(n, ast.stmt) and not isinstance(n, (ast.For, ast.While, ast.If, ast.With, ast.Try)) \
+                        and _is_write_stmt(n, local):
+                    writes.add((base, n.lineno))
+                for field in ('body', 'orelse', 'finalbody'):
+                    block = getattr(n, field, None)
+                    if not isinstance(block, list):
+                        continue
+                    for x, y in zip(block, block[1:]):
+                        if isinstance(x, ast.stmt) and not isinstance(x, (ast.For, ast.While, ast.If, ast.With, ast.Try)) \
+                                and _is_write_stmt(x, local) and _is_write_stmt(y, local):
+                            half.add((base, x.lineno))
+                    # a loop whose body ends with a write: every iteration is a step of a multi-step update
+                    if isinstance(n, (ast.For, ast.While)) and field == 'body' and block and _is_write_stmt(block[-1], local):
+                        half.add((base, block[-1].lineno))
+        _wl[rel], _adj[rel] = writes, half
+
+
+def write_lines(files):
+    """(basename, line) of every statement outside __init__ that writes to an object the function did not create: the
+    places next to which a pre-emption can expose a half-done update or a stale check."""
+    _scan(files)
+    return set().union(*[_wl[f] for f in files])
+
+
+def half_done_lines(files):
+    """... of those, the ones directly followed in the same block by another such write (or closing a loop body):
+    suspending a thread right after them leaves a multi-field update half done."""
+    _scan(files)
+    return set().union(*[_adj[f] for f in files])
 
 
 def write_point_schedules(ctx, site, make, files, cap):
@@ -378,8 +383,8 @@ def write_point_schedules(ctx, site, make, files, cap):
                     # suspended right after the first of two consecutive writes: a half-done update -- these go first
                     (first if (k == i + 2 and w in hd) else scheds).append(sch)
     ctx.extra.setdefault('write_points', {})[site] = [len(first), len(scheds)]
-    if len(first) > 2 * cap:
-        first = ctx.rng.sample(first, 2 * cap)
+    if len(first) > 4 * cap:
+        first = ctx.rng.sample(first, 4 * cap)
     if len(scheds) > cap:
         scheds = ctx.rng.sample(scheds, cap)
     return first + scheds
